@@ -368,7 +368,8 @@ type execReply struct {
 	Stack    string `json:"stack,omitempty"`
 	DurNS    int64  `json:"dur_ns"`
 	Alloc    uint64 `json:"alloc"`
-	Contain  string `json:"contain,omitempty"` // containment verdict ("" = held or not checked)
+	Stopped  bool   `json:"alloc_stopped,omitempty"` // abandoned while running: over the allocation budget
+	Contain  string `json:"contain,omitempty"`       // containment verdict ("" = held or not checked)
 	Harness  string `json:"harness,omitempty"` // harness-side problem
 }
 
@@ -385,6 +386,7 @@ func TestC02_server(t *testing.T) {
 	if os.Getenv("C02_RPM_SHORT") != "" {
 		rpmShortTimeout.Store(true)
 	}
+	allocStop = allocBudget
 	req := bufio.NewReaderSize(os.NewFile(3, "requests"), 1<<20)
 	rep := os.NewFile(4, "replies")
 	defer purgeTrees()
@@ -423,11 +425,11 @@ func serveCase(r execRequest) execReply {
 		return rep
 	}
 	rep.Pkgs, rep.Panicked, rep.PanicVal, rep.Site, rep.Stack = res.Pkgs, res.Panicked, res.PanicVal, res.Site, res.Stack
-	rep.DurNS, rep.Alloc = int64(res.Dur), res.Alloc
+	rep.DurNS, rep.Alloc, rep.Stopped = int64(res.Dur), res.Alloc, res.AllocStopped
 	if res.Err != nil {
 		rep.HasErr, rep.Err = true, res.Err.Error()
 	}
-	if c.Contain && res.Err != nil && !res.Panicked && len(c.Healthy) == 2 && res.Dur <= wallBudget && res.Alloc <= allocBudget {
+	if c.Contain && res.Err != nil && !res.Panicked && !res.AllocStopped && len(c.Healthy) == 2 && res.Dur <= wallBudget && res.Alloc <= allocBudget {
 		if cerr := checkContainment(e, c, data); cerr != nil {
 			rep.Contain = cerr.Error()
 		} else {
@@ -541,6 +543,10 @@ func execute(c c02Case, deadline time.Duration) (execReply, execStatus, string, 
 		case r := <-s.replies:
 			if r.ID != s.nextID {
 				continue
+			}
+			if r.Stopped {
+				s.stop() // the abandoned call is still running in there
+				srv = nil
 			}
 			return r, execOK, "", nil
 		case <-s.gone:
@@ -774,6 +780,9 @@ func propC02(c c02Case) (ev.Outcome, error) {
 	}
 	if dur > wallBudget || r.Alloc > allocBudget {
 		what := fmt.Sprintf("wall %v, allocated %d MiB (budget %v / %d MiB)", dur.Round(time.Millisecond), r.Alloc>>20, wallBudget, allocBudget>>20)
+		if r.Stopped {
+			what = fmt.Sprintf("allocated %d MiB within %v and still running when it was stopped (budget %v / %d MiB)", r.Alloc>>20, dur.Round(time.Millisecond), wallBudget, allocBudget>>20)
+		}
 		if explore {
 			explorePrint("overrun", c.Extractor, what, c)
 			return out, nil
@@ -919,6 +928,7 @@ type isoResult struct {
 	Panicked bool   `json:"panicked"`
 	Site     string `json:"site"`
 	Fail     string `json:"fail"`
+	Stopped  bool   `json:"alloc_stopped"`
 }
 
 // runIsolated executes the case in a child process of its own. died is true when the child ended
@@ -982,6 +992,9 @@ func confirmIsolated(c c02Case) (bool, string) {
 	}
 	d := time.Duration(res.DurMS) * time.Millisecond
 	detail := fmt.Sprintf("wall %v, allocated %d MiB", d, res.AllocMiB)
+	if res.Stopped {
+		detail += " (stopped while still running)"
+	}
 	return res.TimedOut || d > wallBudget || res.AllocMiB > allocBudget>>20, detail
 }
 
@@ -1004,6 +1017,7 @@ func TestC02_isolated(t *testing.T) {
 	if e == nil || err != nil {
 		t.Fatalf("bad case: %v", err)
 	}
+	allocStop = allocBudget
 	if mb := ev.IntEnv("C02_MAXSTACK_MB", 0); mb > 0 {
 		debug.SetMaxStack(mb << 20)
 	}
@@ -1015,7 +1029,7 @@ func TestC02_isolated(t *testing.T) {
 	if r.TimedOut && os.Getenv("C02_DUMP") != "" {
 		_ = pprof.Lookup("goroutine").WriteTo(os.Stdout, 2)
 	}
-	res := isoResult{DurMS: r.Dur.Milliseconds(), AllocMiB: r.Alloc >> 20, TimedOut: r.TimedOut, Panicked: r.Panicked, Site: r.Site}
+	res := isoResult{DurMS: r.Dur.Milliseconds(), AllocMiB: r.Alloc >> 20, TimedOut: r.TimedOut, Panicked: r.Panicked, Site: r.Site, Stopped: r.AllocStopped}
 	if err != nil {
 		res.Fail = err.Error()
 	}
